@@ -1,26 +1,20 @@
 use crate::compiler::prelude::*;
-use std::collections::{BTreeMap, HashMap};
+use std::collections::BTreeMap;
 
 fn tally(value: Value) -> Resolved {
     let value = value.try_array()?;
-    #[allow(clippy::mutable_key_type)] // false positive due to bytes::Bytes
-    let mut map: HashMap<Bytes, usize> = HashMap::new();
+    // Count under the final (lossily decoded) key, so that distinct invalid UTF-8 strings that
+    // decode to the same key are added up instead of one of them winning in hash order.
+    let mut map: BTreeMap<KeyString, usize> = BTreeMap::new();
     for value in value {
         if let Value::Bytes(value) = value {
-            *map.entry(value).or_insert(0) += 1;
+            *map.entry(String::from_utf8_lossy(&value).into_owned().into())
+                .or_insert(0) += 1;
         } else {
             return Err(format!("all values must be strings, found: {value:?}").into());
         }
     }
-    let map: BTreeMap<_, _> = map
-        .into_iter()
-        .map(|(k, v)| {
-            (
-                String::from_utf8_lossy(&k).into_owned().into(),
-                Value::from(v),
-            )
-        })
-        .collect();
+    let map: ObjectMap = map.into_iter().map(|(k, v)| (k, Value::from(v))).collect();
     Ok(map.into())
 }
 
